@@ -34,7 +34,7 @@ from asyncio import (
     run_coroutine_threadsafe as run_coro_ts,
 )
 from itertools import islice
-from threading import Lock
+from threading import Event, Lock
 from functools import partial, wraps
 from concurrent.futures import ThreadPoolExecutor
 from weakref import WeakKeyDictionary as WeakKeyDict, finalize
@@ -1348,14 +1348,22 @@ def loop_in_thread(loop: Loop) -> Callable[[], None]:
     >>> loop.is_running()  # No longer running
     False
     """
+    started = Event()
+
     def _loop_thread() -> None:
         with _get_loop_lock(loop):
             aio.set_event_loop(loop)
+            # Flag the start of *this* run: the loop may currently be
+            # running for someone else (i.e. ensure_aw on an idle loop)
+            # and stopping that run instead must not be possible.
+            loop.call_soon(started.set)
             loop.run_forever()
 
     future = _CROSS_LOOP_POOL.submit(_loop_thread)
 
-    while not loop.is_running():
+    while not started.is_set():
+        if future.done():
+            future.result()  # Reveal why the loop couldn't be started
         sleep(0)  # Force switching to other threads
 
     def _stopper() -> None:
